@@ -1,19 +1,23 @@
 #!/usr/bin/env python3
-# tools/seedtest.py <patch.diff> <Cxx> [quick|thorough] — apply a seeded change to /repo, run the check, always undo it.
+# tools/seedtest.py <patch.diff> <Cxx> [quick|thorough] — apply a seeded change to a scratch worktree of /repo's HEAD (never to /repo
+# itself), point the check at it with GLMX_REPO, run it, undo the change.  Evidence goes to build/seed_evidence.
 import subprocess, sys, os
 os.environ['GLMX_EVIDENCE_DIR'] = '/verif/build/seed_evidence'   # runs against a modified tree are not evidence
 patch, prop = sys.argv[1], sys.argv[2]
 tier = sys.argv[3] if len(sys.argv) > 3 else 'quick'
-st = subprocess.run(['git', '-C', '/repo', 'status', '--porcelain', '--untracked-files=no'], capture_output=True, text=True).stdout.strip()
-if st:
-    print('refusing: /repo has uncommitted changes:\n' + st); sys.exit(3)
-subprocess.check_call(['git', '-C', '/repo', 'apply', os.path.abspath(patch)])
+SEEDREPO = os.environ.get('SEED_REPO', '/tmp/glmx_seedrepo2')
+head = subprocess.run(['git', '-C', '/repo', 'rev-parse', 'HEAD'], capture_output=True, text=True).stdout.strip()
+if not os.path.isdir(SEEDREPO):
+    subprocess.check_call(['git', '-C', '/repo', 'worktree', 'add', '--detach', SEEDREPO, head], stdout=subprocess.DEVNULL, stderr=subprocess.DEVNULL)
+subprocess.check_call(['git', '-C', SEEDREPO, 'checkout', '-q', '--', '.']); subprocess.check_call(['git', '-C', SEEDREPO, 'checkout', '-q', '--detach', head])
+os.environ['GLMX_REPO'] = SEEDREPO
+subprocess.check_call(['git', '-C', SEEDREPO, 'apply', os.path.abspath(patch)])
 try:
     r = subprocess.run(['./check', prop, '--tier', tier], cwd='/verif', capture_output=True, text=True)
     out = r.stdout.strip().splitlines()
     for l in out[-12:]:
-        print('   ', l)
+        print('   ', l[:400])
     print(f'RESULT {prop} {tier} {patch}: exit={r.returncode} ->', 'DETECTED' if r.returncode == 1 and any(x.startswith('VIOLATION') for x in out) else ('ENGINE-ERROR' if r.returncode == 2 else 'MISSED'))
     if r.returncode == 2: print(r.stderr[-1500:])
 finally:
-    subprocess.check_call(['git', '-C', '/repo', 'checkout', '--', '.'])
+    subprocess.check_call(['git', '-C', SEEDREPO, 'checkout', '--', '.'])
